@@ -125,11 +125,23 @@ CHECKS = {
               "rules and the format round trip for orders <= 4 are finite concrete cases."),
         design="DESIGN.md §4 C12",
         note="Trusted: z3 (sequence theory and NRA on degree <= 4 polynomials, with a grid-lemma fallback), CPython's float repr and ast.parse. Known finding F9 (1e999) is listed in known_findings.json."),
+    "C09": dict(
+        level="model_checking", engine="E4-PyProxy",
+        technique="symbolic execution of the real Tensor reader (items/taco_indices/pickle) on arbitrary well-formed stored structures over a pure-Python FFI stand-in, z3 deciding read-back equality; writer entry points with solver-enumerated coordinates and symbolic values; bounded",
+        text=("Reader half: for every format of order <= 3 an arbitrary well-formed stored structure (<= 2 entries per compressed level, dense "
+              "extents 0..2, crd values, vals and compressed-only dimension sizes symbolic) is given to the real Tensor code over a FakeFFI; "
+              "items(), taco_indices/taco_vals and a __getstate__/__setstate__ round trip (which runs the real structure validator) must "
+              "return exactly the stored entries in dimension order - decided by z3 per path (pos entries and dense extents are value-forked "
+              "where range() needs them). Writer half: from_aos/from_dok/from_soa with <= 2 entries whose coordinates range over [-1, dim] "
+              "(value-forked, duplicates included) and symbolic values; the tensor read back must hold the summed entries, the given "
+              "order/dimensions/format, a sorted duplicate-free structure, and out-of-range coordinates must be rejected. The writer half is "
+              "bounded-exhaustive over coordinates by solver enumeration (the real code hashes coordinates), symbolic only in values."),
+        design="DESIGN.md §0 (C09) and §4 C09",
+        note="Trusted: z3, the proxy layer (SymInt/SymBool/SymVal) and the FakeFFI (Python lists with the int32 range check cffi performs). from_numpy/from_scipy_sparse/from_lol are outside. Known finding F3b (dense levels drop out-of-range coordinates) is listed in known_findings.json."),
 }
 
 NOT_APPLICABLE = {
     "C08": "quantifier is the finite request/configuration space and the failure is a Python exception inside the compiler; executing the whole Python compiler on a symbolic format is out of reach of CrossHair (realises at enum/tuple/dict use); what remains is enumeration, a different technique (DESIGN.md §5)",
-    "C09": "every quantified input is concretised on first use: the real construction code hashes coordinates (dict keys in coordinates_to_tree) and ranges over dense dimensions, so a proxy execution degenerates to enumeration of coordinates with only values and compressed-only dimension sizes left symbolic; the defect found there at design time (items() permutation) is fixed in /repo (DESIGN.md §0)",
     "C13": "histories of CPython refcounting/gc/cffi ffi.gc/libc free: the code that matters is C behind the FFI; nothing installed executes it symbolically (DESIGN.md §5)",
     "C14": "thread interleavings of CPython, LLVM MCJIT and the cffi build lock: no engine here explores Python thread schedules symbolically (DESIGN.md §5)",
     "C15": "hash seeds, process boundaries and request histories are not inputs of a function a solver can quantify over; the cache-key clause ranges over a small finite set where a symbolic check degenerates to enumeration (DESIGN.md §5)",
